@@ -134,6 +134,22 @@ impl<'tcx> Cx<'tcx> {
                 let hex: String = bytes.iter().map(|b| format!("{:02x}", b)).collect();
                 parts.push(format!("\"bytes\":{}", esc(&hex)));
             } else if let mir::ConstValue::Indirect { alloc_id, offset } = val {
+                // `const X: [u8; N] = [..]` used by value: the bytes themselves
+                if let ty::Array(et, n) = ty.kind() {
+                    if *et == tcx.types.u8 {
+                        if let Some(n) = n.try_to_target_usize(tcx) {
+                            if let rustc_middle::mir::interpret::GlobalAlloc::Memory(a) = tcx.global_alloc(alloc_id) {
+                                let a = a.inner();
+                                let off = offset.bytes() as usize;
+                                if a.len() >= off + n as usize {
+                                    let b = a.inspect_with_uninit_and_ptr_outside_interpreter(off..off + n as usize);
+                                    let hex: String = b.iter().map(|b| format!("{:02x}", b)).collect();
+                                    parts.push(format!("\"bytes\":{}", esc(&hex)));
+                                }
+                            }
+                        }
+                    }
+                }
                 // `const X: &[u8] = b"..."`: a fat pointer stored in memory
                 if let ty::Ref(_, inner, _) = ty.kind() {
                     let is_bytes = matches!(inner.kind(), ty::Slice(e) if *e == tcx.types.u8) || inner.is_str();
